@@ -17,15 +17,19 @@ func (fa *FA) edgeFacts(pred, succ *ssa.BasicBlock, extra ...*Lin) []Fact {
 	for _, c := range condsAt(pred) {
 		facts = append(facts, fa.condFacts(c)...)
 	}
+	conds := append([]Cond{}, condsAt(pred)...)
 	if len(pred.Instrs) > 0 {
 		if ifi, ok := pred.Instrs[len(pred.Instrs)-1].(*ssa.If); ok && pred.Succs[0] != pred.Succs[1] {
 			for si := 0; si < 2; si++ {
 				if pred.Succs[si] == succ {
-					facts = append(facts, fa.condFacts(normCond(Cond{ifi.Cond, si == 0}))...)
+					ec := normCond(Cond{ifi.Cond, si == 0})
+					facts = append(facts, fa.condFacts(ec)...)
+					conds = append(conds, ec)
 				}
 			}
 		}
 	}
+	facts = append(facts, fa.calleeFacts(conds)...)
 	return fa.closeFacts(facts, extra...)
 }
 
